@@ -113,9 +113,8 @@ def run(ctx):
     todo = []
     for x in res:
         job, ops, tr, bad, info = x
-        linear = float(job["cfg"].get("phase", 50)) == 50 and not (int(job["cfg"].get("recipe", 4)) & 0x30)
         sig = cr.plan_sig(tr)
-        if linear and tr.plan and sig not in seen_sig:
+        if tr.plan and sig not in seen_sig:
             seen_sig.add(sig); todo.append(x)
     searched = 0
     for h in cr.pmap(hyp, todo):
@@ -125,7 +124,8 @@ def run(ctx):
         ctx.count("plans_delay_hypotheses_checked")
         if [k for k in cr.classify_known(tr.plan, job["cfg"]) if k in known_ids]:
             continue
-        if t is None or int(t["lat"]) < 1 or t.get("early") != "1":
+        linear = float(job["cfg"].get("phase", 50)) == 50 and not (int(job["cfg"].get("recipe", 4)) & 0x30)
+        if (linear and (t is None or int(t["lat"]) < 1 or t.get("early") != "1")) or (not linear and (t is None or t.get("earlyg") != "1")):
             ctx.violation("hypothesis of delay_gt_neg_one_every_run fails on a plan of the real planner (PlanLatOK / PlanEarlyOK / StageWF): %s (%s %s)"
                           % (t, cr.create_line(job["cfg"]), job["env"]), {"cfg": job["cfg"], "env": job["env"], "plan": tr.plan, "time": t}, no_input=True)
         elif t.get("post") != "1":
